@@ -342,6 +342,80 @@ def ob_header(n):
     return h
 
 
+def _directive_lines(text, fmt):
+    """what a C preprocessor / nasm sees of a generated header: comments removed (C: /* ... */; nasm: from ';' to the end of the line), blank lines dropped"""
+    cs = chars_of(text); out = []; cur = []; i = 0; n = len(cs); in_c = False
+    while i < n:
+        c = cs[i]
+        if fmt == 'c':
+            if in_c:
+                if i + 1 < n and decide(ceq(c, 42)) and decide(ceq(cs[i + 1], 47)): in_c = False; i += 2; continue
+                i += 1; continue
+            if i + 1 < n and decide(ceq(c, 47)) and decide(ceq(cs[i + 1], 42)): in_c = True; i += 2; continue
+        else:
+            if decide(ceq(c, 59)):
+                while i < n and not decide(ceq(cs[i], 10)): i += 1
+                continue
+        if decide(ceq(c, 10)):
+            if cur: out.append(mkstr(cur))
+            cur = []
+        else:
+            cur.append(c)
+        i += 1
+    check(not in_c, 'header: every comment is closed')
+    if cur: out.append(mkstr(cur))
+    return out
+
+
+def ob_header_desc(full):
+    """the header generated WITHOUT a template, in both formats, with optional descriptions (0-3 characters incl. line breaks) and an optional include guard:
+    after comment removal exactly one directive per key remains, in sorted order - a description never becomes live text"""
+    def h():
+        fmt = ['c', 'nasm'][choose(2, 'fmt')]
+        macro = [None, 'GUARD_H'][choose(2, 'macro')] if fmt == 'c' else None
+        n = 1 + choose(2, 'n')
+        keys = [sym_str(1, 'k%d' % i, alphabet='abX_') for i in range(n)]
+        for i in range(n):
+            for j in range(i): assume(sym_not(keys[i] == keys[j]))
+        pairs = []
+        for i, k in enumerate(keys):
+            vk = choose(3, 'vk%d' % i)
+            v = sym_str(1, 'v%d' % i, alphabet='ab1') if vk == 0 else (sym_int('i%d' % i, -9, 9) if vk == 1 else sym_bool('b%d' % i))
+            if full:
+                dl = choose(5, 'dl%d' % i)
+                desc = None if dl == 4 else sym_str(dl, 'd%d' % i, alphabet='a %#\n\r')
+            else:
+                dl = choose(4 if n == 1 else 2, 'dl%d' % i)
+                desc = None if dl == 0 else sym_str([0, 2, 0, 3][dl] if n == 1 else 2, 'd%d' % i, alphabet='a%\n\r')
+            pairs.append((k, (v, desc)))
+        conf = CD(pairs)
+        o = Rec()
+        U._dump_c_header(o, conf, fmt, macro)
+        text = o.text()
+        prelude = U.CONF_NASM_PRELUDE if fmt == 'nasm' else U.CONF_C_PRELUDE.format('#pragma once' if macro is None else '#ifndef {0}\n#define {0}'.format(macro))
+        check(len(text) >= len(prelude), 'header: starts with the prelude')
+        body = text[len(prelude):]
+        if macro is not None:
+            check(body.endswith('#endif\n'), 'header: include guard closed'); body = body[:len(body) - 7]
+        got = _directive_lines(body, fmt)
+        ks = list(pairs)
+        for i in range(len(ks)):
+            for j in range(len(ks) - 1 - i):
+                if decide(bt_any(ks[j + 1][0] < ks[j][0])): ks[j], ks[j + 1] = ks[j + 1], ks[j]
+        pre = '#' if fmt == 'c' else '%'
+        exp = []
+        for k, (v, _) in ks:
+            if isinstance(v, (bool, SymBool)): exp.append(pre + 'define ' + k if decide(bt_any(v)) else pre + 'undef ' + k)
+            else: exp.append(pre + 'define ' + k + ' ' + render(v))
+        check(len(got) == len(exp), 'header: one directive per key and nothing else is live text')
+        if len(got) == len(exp):
+            for g, e in zip(got, exp):
+                g2 = g.rstrip('\r ') if hasattr(g, 'rstrip') else g
+                check(len(g2) == len(e) and eq(g2, e), 'header defines exactly the keys, once each, sorted')
+        cover('done'); cover(fmt)
+    return h
+
+
 def obligations(tier):
     q = tier == 'quick'
     A = '@\\ab-$ \r\n\u00e9'      # \u00e9: a non-ASCII letter - placeholder names are ASCII only, whatever \\w or str.isalnum() think
@@ -361,4 +435,6 @@ def obligations(tier):
                               labels=('01', 'undef', 'define'), max_paths=3000000, classify=classify_cmakedefine))
     for n in (1, 2) if q else (1, 2, 3):
         out.append(Obligation('header[%d]' % n, ob_header(n), dict(entries=n), labels=('done',), max_paths=3000000))
+    out.append(Obligation('header-descriptions', ob_header_desc(not q), dict(format='c | nasm', include_guard='absent | present (c)', entries='1-2', description='absent | 0-3 characters over {a, space, %, #, LF, CR}' if not q else 'absent | 0, 2, 3 characters (one entry) / 2 characters (two entries) over {a, %, LF, CR}',
+                          value='str(1) | int | bool'), labels=('done', 'c', 'nasm'), max_paths=3000000))
     return out
